@@ -13,6 +13,7 @@ func zzC06FS() *zzFS {
 	return newZZFS(map[string]string{
 		"card.vuego": `<div class="card"><header><slot name="h">FB-H</slot></header><main><slot>FB-D</slot></main><footer><slot name="f" :x="n" :y="m">FB-F</slot></footer></div>`,
 		"list.vuego": `<ul><li v-for="it in items"><slot :item="it" :pos="it">FB-{{ it }}</slot></li></ul>`,
+		"rows.vuego": `<ul><li v-for="it in rows"><slot :id="it.id" :label="it.label">fb</slot></li></ul>`,
 		"wrap.vuego": `<section class="wrap"><template include="card.vuego"><template v-slot:h>INNER-H</template></template><slot>FB-WRAP</slot></section>`,
 	})
 }
@@ -106,7 +107,7 @@ func VerifC06_Slots() {
 // VerifC06_Loop: a slot inside a loop is filled once per iteration with that
 // iteration's props; a component nested in a component keeps its own slots.
 func VerifC06_Loop() {
-	mode := zzChoice("mode", 4)
+	mode := zzChoice("mode", 5)
 	var body, want string
 	data := map[string]any{"outer": "OUT", "items": []string{"a", "b"}, "nv": 9}
 	switch mode {
@@ -119,6 +120,27 @@ func VerifC06_Loop() {
 	case 2: // nested component: the inner card gets INNER-H, the wrapper's default slot gets the includer's content
 		body = `<template include="wrap.vuego"><em>W-{{ outer }}</em></template>`
 		want = `<section class="wrap"><div class="card"><header>INNER-H</header><main>FB-D</main><footer>FB-F</footer></div><em>W-OUT</em></section>`
+	case 4: // scoped props that are present for some iterations and absent for others
+		var rows []any
+		want = `<ul>`
+		for r := 1; r <= 3; r++ {
+			row := map[string]any{"id": r}
+			label := ""
+			if zzBool("haslabel") {
+				label = "L" + string(rune('0'+r))
+				row["label"] = label
+			}
+			rows = append(rows, row)
+			want += `<li>[` + string(rune('0'+r)) + `:` + label + `]</li>`
+		}
+		want += `</ul>`
+		data["rows"] = rows
+		spread := zzBool("spread")
+		if spread {
+			body = `<template include="rows.vuego"><template v-slot>[{{ id }}:{{ label }}]</template></template>`
+		} else {
+			body = `<template include="rows.vuego"><template v-slot="s">[{{ s.id }}:{{ s.label }}]</template></template>`
+		}
 	case 3: // nested component, nothing supplied to the wrapper
 		body = `<template include="wrap.vuego"></template>`
 		want = `<section class="wrap"><div class="card"><header>INNER-H</header><main>FB-D</main><footer>FB-F</footer></div>FB-WRAP</section>`
